@@ -60,6 +60,9 @@ def jobs(tier):
     # the member is assigned partitions of two topics
     out.append({"K": 5 if q else 6, "faults": 1, "leader": False, "stop": True, "prefix": "stable-commit-hb", "autocommit": True, "two_topics": True})
     out.append({"K": 5 if q else 6, "faults": 1, "leader": False, "stop": True, "two_topics": True})
+    # a consumer of the new generation fails synchronously (single attempt, committed-offset lookup refused) while the group is
+    # still inside on_join_complete
+    out.append({"K": 5 if q else 6, "faults": 0, "leader": False, "stop": False, "sync_offset_reject": True})
     return out
 
 
